@@ -316,10 +316,18 @@ func genCluster(seed uint64, tier, variant string) any {
 					}
 				}
 			case x < 68:
-				// a transaction block in a single-slot batch (slot-less MULTI/EXEC must not be mixed with several slots)
+				// a transaction block in a single-slot batch (slot-less MULTI/EXEC must not be mixed with several slots).
+				// Commands in front of the block use a key that exists (preloaded list), the block's commands mostly use
+				// keys that do not exist yet: while the slot is migrating, the source node then serves the former and
+				// answers ASK for the latter, so that only the block travels.
 				ki := r.IntN(len(ks))
-				one := func(k int, write bool) CmdSpec {
-					key := keyOf(ki, "x"+strconv.Itoa(r.IntN(3)))
+				exist := keyOf(ki, "x0")
+				cl.Preload = append(cl.Preload, []string{"VWTAG", exist, "pre." + uid(0)})
+				one := func(k int, write bool, fresh bool) CmdSpec {
+					key := exist
+					if fresh {
+						key = keyOf(ki, "x"+pick(r, "1", "2", "f."+uid(k)))
+					}
 					if write {
 						return CmdSpec{Argv: []string{"VWTAG", key, uid(k)}, Keys: 1}
 					}
@@ -327,18 +335,18 @@ func genCluster(seed uint64, tier, variant string) any {
 				}
 				c = CallSpec{Kind: "multi"}
 				k := 0
-				for i, m := 0, r.IntN(2); i < m; i++ {
-					c.Cmds = append(c.Cmds, one(k, r.IntN(2) == 0))
+				for i, m := 0, r.IntN(3); i < m; i++ {
+					c.Cmds = append(c.Cmds, one(k, r.IntN(2) == 0, false))
 					k++
 				}
 				c.Cmds = append(c.Cmds, CmdSpec{Argv: []string{"MULTI"}})
 				for i, m := 0, 1+r.IntN(3); i < m; i++ {
-					c.Cmds = append(c.Cmds, one(k, r.IntN(2) == 0))
+					c.Cmds = append(c.Cmds, one(k, r.IntN(2) == 0, r.IntN(4) != 0))
 					k++
 				}
 				c.Cmds = append(c.Cmds, CmdSpec{Argv: []string{"EXEC"}})
 				for i, m := 0, r.IntN(2); i < m; i++ {
-					c.Cmds = append(c.Cmds, one(k, false))
+					c.Cmds = append(c.Cmds, one(k, false, false))
 					k++
 				}
 			case x < 74:
@@ -382,7 +390,9 @@ func genCluster(seed uint64, tier, variant string) any {
 				key := keyOf(r.IntN(len(ks)), "m."+uid(0))
 				c.Cmds = []CmdSpec{{Argv: []string{key, "v:" + key + ":" + uid(0)}}}
 			}
-			if !cl.Stable && r.IntN(8) == 0 {
+			if !cl.FaultFree && r.IntN(8) == 0 {
+				// (deadlines only where faults are allowed anyway: a caller whose deadline ends during a dial it shares
+				// with other callers makes their attempt fail too, an invisible fault for the redirect-chain rules)
 				c.TimeoutMs = 200 + r.IntN(3000)
 			}
 			calls = append(calls, c)
@@ -1288,6 +1298,14 @@ func (ce *clusterEnv) judge() {
 					} else {
 						out.judged("opted-in-at-replica")
 					}
+				}
+			}
+			// ---- C20: a MULTI...EXEC block is executed at most once per call (fault-free) ----
+			if inTx && tx == "queued" && faultFree && !ctxEnded {
+				if executed[uid] > 1 {
+					out.violate("C20", "transaction-executed-twice", "task %d call %d cmd %d %q inside a MULTI...EXEC block was executed %d times although no connection was lost (arrivals %s)", task, rec.Index, i, truncArgv(argv), executed[uid], attemptNodes(att))
+				} else {
+					out.judged("tx-member-executed-at-most-once")
 				}
 			}
 			// ---- C03 (cluster clause): non-retryable writes execute at most once ----
